@@ -10,6 +10,7 @@ def run(ctx):
     sim += ctx.gen_printed("Gen_Program", "Gen_Program_rt_%s.cfg" % ctx.tier, simulate="num=%d" % (300 if q else 5000), depth=16 if q else 42,
                            seed=ctx.seed + 17, parallel=12)
     cases = [{"kind": "prog", "prog": p} for p in sysp + sim]
+    cases += ctx.gen("Gen_C17T", "Gen_C17T_%s.cfg" % ctx.tier)      # values of ANY whole tick count (288 / k), not only the documented vocabulary
     bpms = list(range(4, 1001))
     for i in range(0, len(bpms), 100):
         cases.append({"kind": "bpm", "bpms": bpms[i:i + 100]})
@@ -24,9 +25,9 @@ def run(ctx):
     edits += [[pos, t] for pos in (0, 14) for t in tags]
     cases.append({"kind": "corrupt", "edits": edits})
     ctx.exhaustive = False
-    ctx.bounds = {"quick": "the C16 programs (%d systematic + 300 simulated) + 300 simulated round-trippable ones, restricted by the specification to round-trippable ones (whole tick counts, velocity 1..127, no tempo change); bpm 4..1000 all values; VLQ as in C16 through the real reader; %d corrupted headers / track tags / format numbers" % (len(sysp), len(edits)),
+    ctx.bounds = {"quick": "the C16 programs (%d systematic + 300 simulated) + 300 simulated round-trippable ones, restricted by the specification to round-trippable ones (whole tick counts, velocity 1..127, no tempo change); one 4/4 bar cut at every tick 1..287 and in three with a rest (values 288 / k for any whole k); bpm 4..1000 all values; VLQ as in C16 through the real reader; %d corrupted headers / track tags / format numbers" % (len(sysp), len(edits)),
                   "thorough": "5000 simulated programs"}[ctx.tier]
     ctx.rule = ("programs from the TLA+ builder machine; distinct = distinct (operation, program/argument); non-trivial = program with a rest or more than one entry, any bpm other than 120, VLQ >= 128, any corruption")
-    ctx.nontrivial = lambda r: r["op"] != "roundtrip" or sum(len(b["entries"]) for t in r["prog"]["tracks"] for b in t["bars"]) > 1
+    ctx.nontrivial = lambda r: r["op"] == "rt_ticks" or r["op"] != "roundtrip" or sum(len(b["entries"]) for t in r["prog"]["tracks"] for b in t["bars"]) > 1
     recs = ctx.execute("c17", cases, orders=2)
     ctx.validate("Trace_C17", recs, driver="c17", shard=6000)
